@@ -96,7 +96,65 @@ func (E *Engine) contractsOf(pkgPath string) *PkgContracts {
 		pc = p
 	}
 	E.contracts[pkgPath] = pc
+	if pc != nil {
+		E.expandWildcards(pkgPath, pc)
+	}
 	return pc
+}
+
+// expandWildcards: a contract headed `func (m T) *` stands for one contract, with the same clauses, on every method
+// of T declared in the package that is not under a contract of its own, has the receiver name written in the header
+// and (when the contract has callreq clauses) calls at least one of the callees those clauses name. The copies are
+// ordinary contracts (`T.Method`): each generates and discharges its own obligations.
+func (E *Engine) expandWildcards(pkgPath string, pc *PkgContracts) {
+	var order []string
+	for _, key := range pc.Order {
+		if !strings.HasSuffix(key, ".*") {
+			order = append(order, key)
+			continue
+		}
+		c := pc.Funcs[key]
+		delete(pc.Funcs, key)
+		recv := strings.TrimSuffix(key, ".*")
+		var names []string
+		decls := map[string]*ast.FuncDecl{}
+		for fn, d := range E.decls {
+			if E.declPkg[fn] == nil || E.declPkg[fn].PkgPath != pkgPath || d.Recv == nil || d.Body == nil {
+				continue
+			}
+			k := funcKey(fn)
+			if !strings.HasPrefix(k, recv+".") {
+				continue
+			}
+			if _, own := pc.Funcs[k]; own {
+				continue
+			}
+			if len(c.CallReq) > 0 {
+				calls := false
+				ast.Inspect(d.Body, func(n ast.Node) bool {
+					if ce, ok := n.(*ast.CallExpr); ok {
+						if _, ok := c.CallReq[exprStr(ce.Fun)]; ok {
+							calls = true
+						}
+					}
+					return !calls
+				})
+				if !calls {
+					continue
+				}
+			}
+			names = append(names, k)
+			decls[k] = d
+		}
+		sort.Strings(names)
+		for _, k := range names {
+			cp := *c
+			cp.Key = k
+			pc.Funcs[k] = &cp
+			order = append(order, k)
+		}
+	}
+	pc.Order = order
 }
 
 func (E *Engine) pkgByDir(dir string) *packages.Package {
